@@ -151,6 +151,17 @@ pub mod stubs {
     pub fn lossy_empty(_v: &[u8]) -> Cow<'_, str> {
         Cow::Borrowed("")
     }
+    /// For "is accepted, not rejected" harnesses over raw bytes: a string of the same length as the input,
+    /// contents irrelevant (so that non-empty names stay non-empty and no UTF-8 scan is needed).
+    pub fn lossy_fill(v: &[u8]) -> Cow<'_, str> {
+        let mut s = String::with_capacity(8);
+        let mut i = 0;
+        while i < v.len() {
+            s.push('x');
+            i += 1;
+        }
+        Cow::Owned(s)
+    }
     /// Growth of the pre-sized `BytesMut` is outside the model: reaching it is reported (assertion), then the
     /// path is dropped. Without this, symex explores `reserve_inner` whenever a length it cannot fold (any
     /// string length read out of an `IppValue`) is appended.
